@@ -205,6 +205,23 @@ def random_units(rnd, n, with_ref, taken_idents, allow_prefix=True, safe=False):
         if rnd.random() < 0.3:
             u["doc"] = rnd.choice(["plain doc", "with \"quotes\"", "two\nlines", "1000·x", "tab\there \\ backslash"])
         units.append(u)
+    non_ref = [i for i, u in enumerate(units) if not u["ref"]]
+    if with_ref and len(non_ref) >= 2:
+        r = rnd.random()
+        if r < 0.06:
+            # two integer literals beyond the range of u64, the larger written first
+            i, j = sorted(rnd.sample(non_ref, 2))
+            big = sorted(rnd.sample([2**64, 10**20, 3 * 10**20 + 7, 10**21, 2**70], 2), reverse=True)
+            units[i]["scale"], units[j]["scale"] = str(big[0]), str(big[1])
+        elif r < 0.12:
+            # two scales one f64 step apart, the larger written first
+            import math
+            i, j = sorted(rnd.sample(non_ref, 2))
+            base = rnd.choice([2.0, 0.3048, 31.0, 1000.0, 7.5, 0.45359237])
+            units[i]["scale"], units[j]["scale"] = repr(math.nextafter(base, math.inf)), repr(base)
+        elif r < 0.17:
+            # an alias of the reference unit
+            units[rnd.choice(non_ref)]["scale"] = rnd.choice(["1", "1.0", "1e0"])
     return units
 
 
@@ -218,7 +235,7 @@ def random_def(rnd, name, kind=None, derived=None, taken_idents=None, safe=False
         units = random_units(rnd, rnd.randint(2, 6), False, taken_idents)
     else:
         # now and then more than twenty units (sorting must stay stable)
-        n_units = rnd.randint(21, 26) if rnd.random() < 0.06 else rnd.randint(2, 8)
+        n_units = rnd.choice([rnd.randint(21, 26), rnd.randint(33, 40)]) if rnd.random() < 0.08 else rnd.randint(2, 8)
         units = random_units(rnd, n_units, True, taken_idents, safe=safe)
     extras = []
     if rnd.random() < 0.5:
